@@ -4,6 +4,7 @@
 
 from __future__ import annotations
 
+import threading
 from typing import TYPE_CHECKING, Annotated, Final, final, overload
 
 from .calendars._badi_year_month_day_calculator import _BadiYearMonthDayCalculator
@@ -267,6 +268,7 @@ class CalendarSystem(metaclass=_CalendarSystemMeta):
 
     # While we could implement some of these as auto-props, it probably adds more confusion than convenience.
     __CALENDAR_BY_ORDINAL: Final[dict[_CalendarOrdinal, CalendarSystem]] = {}
+    __REGISTRY_LOCK: Final[threading.RLock] = threading.RLock()
 
     __ID_ORDINAL_MAP: Final[dict[str, _CalendarOrdinal]] = {
         __BADI_ID: _CalendarOrdinal.BADI,
@@ -457,6 +459,27 @@ class CalendarSystem(metaclass=_CalendarSystemMeta):
         single_era: Era | None = None,
     ) -> CalendarSystem:
         """Private initialiser which emulates the two private constructors on the corresponding Noda Time class."""
+        with cls.__REGISTRY_LOCK:
+            return cls.__ctor_locked(
+                ordinal=ordinal,
+                id_=id_,
+                name=name,
+                year_month_day_calculator=year_month_day_calculator,
+                era_calculator=era_calculator,
+                single_era=single_era,
+            )
+
+    @classmethod
+    def __ctor_locked(
+        cls,
+        *,
+        ordinal: _CalendarOrdinal,
+        id_: str,
+        name: str,
+        year_month_day_calculator: _YearMonthDayCalculator,
+        era_calculator: _EraCalculator | None = None,
+        single_era: Era | None = None,
+    ) -> CalendarSystem:
         if ordinal in cls.__CALENDAR_BY_ORDINAL:
             return cls.__CALENDAR_BY_ORDINAL[ordinal]
         self: CalendarSystem = super().__new__(cls)
